@@ -1,6 +1,7 @@
 package hclient
 
 import (
+	"context"
 	"crypto/tls"
 	"errors"
 	"fmt"
@@ -146,6 +147,7 @@ type runner struct {
 	u   *base.URL
 	out *Outcome
 
+	dials             atomic.Int32 // successful dials to the scripted server
 	seenResp, seenReq atomic.Int32
 	baseResp, baseReq atomic.Int32
 	waited            chan struct{}
@@ -372,6 +374,13 @@ func runScript(sc *Script) *Outcome {
 		OnTransportSwitch: func(error) {},
 		OnPacketsLost:     func(uint64) {},
 		OnDecodeError:     func(error) {},
+		DialContext: func(ctx context.Context, network, address string) (net.Conn, error) {
+			nc, err := (&net.Dialer{}).DialContext(ctx, network, address)
+			if err == nil && address == srv.host {
+				r.dials.Add(1)
+			}
+			return nc, err
+		},
 		ResolveIPAddr: func(string, string) (*net.IPAddr, error) {
 			return nil, fmt.Errorf("no name resolution in the harness")
 		},
@@ -478,9 +487,13 @@ func runScript(sc *Script) *Outcome {
 		// must return that failure promptly, so that the next call reports it at once
 		fatalCls := cr.Class == "timeout" || cr.Class == "unhandledMethod" || cr.Class == "unexpectedFrame" ||
 			cr.Class == "tcpTimeout" || cr.Class == "udpTimeout"
-		srv.mu.Lock()
-		lostConn := int(srv.hungUp.Load()) == srv.nconn && srv.nconn > 0
-		srv.mu.Unlock()
+		// (b) only counts for the connection that is the client's CURRENT one: the k-th successful dial of
+		// the client is the k-th connection the server accepted; a close of a connection the client has
+		// already replaced, or has itself given up (reset after a redirect / protocol switch without a new
+		// connection), is not a failure of the client
+		st0 := gortsplib.VerifClientSnapshot(r.c)
+		hu := srv.hungUp.Load()
+		lostConn := hu > 0 && hu == r.dials.Load() && (st0.HasConn || st0.Closed || st0.MustClose)
 		if (fatalCls || lostConn) && sc.ConcAt == 0 {
 			select {
 			case <-r.waited:
